@@ -143,6 +143,9 @@ def enumerated(tier, seed):
     # one label (below and above $100) named by two statements of different operand widths: each statement must
     # still be the instruction it names, whatever the other one does with the label
     yield from pair_cases()
+    # symbols whose names are made of register letters or begin like a register / mnemonic (AB, ABD, XY, PCRX, CCR ...):
+    # a name is a name, whatever it looks like
+    yield from tricky_name_cases()
     if tier == "thorough":
         full = list(range(0, 65536)) + list(range(-32768, 0))
         for mn in ("LDA", "LDX", "LDY", "LEAX", "STA", "CMPD", "JMP"):
@@ -178,6 +181,30 @@ def pair_cases():
                 stmts = [{"lab": "", "k": "org", "addr": org}, {"lab": "L0", "k": "inh", "mn": "NOP"},
                          dict(a, lab=""), dict(b, lab=""), {"lab": "L1", "k": "inh", "mn": "NOP"}]
                 yield dict(form="labelpair", pair={"org": org, "stmts": stmts})
+
+
+_TRICKY_NAMES = ["AB", "BD", "ABD", "DA", "XY", "YU", "US", "SP", "PCX", "PCRX", "CCR", "DPR", "AX", "BY", "DX", "XA", "PCR1", "LDA1", "NOPE",
+                 "ORG1", "EQU2", "ENDX", "FCB1", "AH", "BEACH", "ADD", "A1", "B2", "D3", "X4"]
+
+
+def tricky_name_cases():
+    for name in _TRICKY_NAMES:
+        sym = {"sym": name, "op": "", "c": 0}
+        uses = [{"k": "imm8", "mn": "LDA", "val": sym}, {"k": "imm16", "mn": "LDX", "val": sym}, {"k": "mem", "mn": "STA", "val": sym, "force": ""},
+                {"k": "extind", "mn": "JMP", "val": sym}, {"k": "idx", "mn": "LDA", "reg": "X", "ind": False, "val": sym},
+                {"k": "idx", "mn": "LDB", "reg": "Y", "ind": True, "val": sym}, {"k": "pcr", "mn": "LEAX", "ind": False, "val": sym},
+                {"k": "pcr", "mn": "LDD", "ind": True, "val": sym}, {"k": "fdb", "vals": [sym, {"lit": 1, "sp": "dec"}]}, {"k": "br", "mn": "LBRA", "to": name}]
+        for value in (5, 300):
+            # as an EQU constant (defined before or after the uses); a branch needs a label, so it is left out here
+            equ = {"lab": name, "k": "equ", "val": {"lit": value, "sp": "dec"}}
+            body = [dict(u, lab="") for u in uses if u["k"] not in ("br", "pcr") and not (value > 255 and u["k"] == "imm8")]
+            for before in (True, False):
+                stmts = [{"lab": "", "k": "org", "addr": 0x2000}] + ([equ] if before else []) + body + ([] if before else [equ])
+                yield dict(form="labelpair", pair={"org": 0x2000, "stmts": stmts})
+        # as a label
+        body = [dict(u, lab="") for u in uses if u["k"] != "imm8"]
+        stmts = [{"lab": "", "k": "org", "addr": 0x2000}, {"lab": name, "k": "inh", "mn": "NOP"}] + body + [{"lab": "ZZL", "k": "inh", "mn": "NOP"}]
+        yield dict(form="labelpair", pair={"org": 0x2000, "stmts": stmts})
 
 
 def execute_pair(case):
